@@ -101,6 +101,23 @@ Theorem C03_sort_idempotent : forall t k asc m r,
 Proof. exact sort_idempotent. Qed.
 Print Assumptions C03_sort_idempotent.
 
+(* derived sets: selecting (no limit) from the sorted set = sorting the selected set *)
+Theorem C03_select_sort_commute : forall t k asc p ty m r1 r2 r3 r4,
+  sort_members t k asc m = Some r1 -> select_members t p AInf ty r1 = Some r2 ->
+  select_members t p AInf ty m = Some r3 -> sort_members t k asc r3 = Some r4 ->
+  r2 = r4.
+Proof. exact select_sort_commute. Qed.
+Print Assumptions C03_select_sort_commute.
+
+(* when no two members share a key, sort depends only on who is in the set, not on the order they
+   are in (sorting after any shuffle gives the same list); with ties the order matters only
+   through the stable order of the tied members (C03_sort_spec) *)
+Theorem C03_sort_order_independent_without_ties : forall t k asc m m' r r',
+  NoDup (map (key_or0 t k) m) -> Permutation m m' ->
+  sort_members t k asc m = Some r -> sort_members t k asc m' = Some r' -> r' = r.
+Proof. exact sort_order_independent. Qed.
+Print Assumptions C03_sort_order_independent_without_ties.
+
 Theorem C03_sort_error_iff_key_raises : forall t k asc m,
   sort_members t k asc m = None <-> exists a, In a m /\ eval_key t k a = None.
 Proof. exact sort_none. Qed.
@@ -113,7 +130,14 @@ Example C03_sort_example :
   sort_members t (KAttr 0) false [1; 2; 3; 4] = Some [1; 3; 2; 4] /\   (* descending, ties in order *)
   sort_members t (KAttr 0) true [1; 2; 3; 4] = Some [2; 4; 1; 3] /\    (* ascending, ties in order *)
   sort_members t (KAttr 0) true [1; 5] = None /\
-  sort_members t (KAttr 0) false [1; 3; 2; 4] = Some [1; 3; 2; 4].      (* sorted again: unchanged *)
+  sort_members t (KAttr 0) false [1; 3; 2; 4] = Some [1; 3; 2; 4] /\    (* sorted again: unchanged *)
+  (* select after sort = sort after select *)
+  select_members t (Some (PIdMod 2 0)) AInf None [1; 3; 2; 4] = Some [2; 4] /\
+  select_members t (Some (PIdMod 2 0)) AInf None [1; 2; 3; 4] = Some [2; 4] /\
+  sort_members t (KAttr 0) false [2; 4] = Some [2; 4] /\
+  (* distinct keys: any order of the same members sorts to the same list; tied keys: not *)
+  sort_members t KId true [3; 1; 4; 2] = Some [1; 2; 3; 4] /\ sort_members t KId true [2; 4; 1; 3] = Some [1; 2; 3; 4] /\
+  sort_members t (KAttr 0) true [3; 1; 4; 2] = Some [4; 2; 3; 1].
 Proof. vm_compute. repeat split. Qed.
 
 (* ------------------------------------------------------------------ shuffle *)
@@ -150,6 +174,19 @@ Theorem C03_groupby_partition : forall kf l,
   Permutation (concat (map snd g)) l.
 Proof. exact groupby_spec. Qed.
 Print Assumptions C03_groupby_partition.
+
+(* what the GroupBy op of a history returns is that partition (or AttributeError when the key
+   raises on a member), and it changes nothing *)
+Theorem C03_groupby_step : forall st s k m,
+  members st s = Some m ->
+  step st (GroupBy s k) =
+  match all_some (eval_key (st_tbl st) k) m with
+  | Some _ => let g := groupby_members (key_or0 (st_tbl st) k) m in
+              (st, ROk (zlen g :: flat_map (fun e => fst e :: zlen (snd e) :: snd e) g))
+  | None => (st, RErr E_ATTR)
+  end.
+Proof. exact step_groupby. Qed.
+Print Assumptions C03_groupby_step.
 
 (* groupby(k).groups[kv] stored as a new set: the filter, or KeyError and nothing changes *)
 Theorem C03_groupby_group_is_filter : forall st s k kv d m ks,
